@@ -5,6 +5,9 @@
     that buffer's syntax errors if it has any, otherwise its last saved non-syntax diagnostics."
 
    fresh_view dk f        what a server started on disk dk publishes for f
+   fresh_view_open w f    the same for a server started on the disk of world w and told about the documents outside the
+                          workspace that are open in w (only the repaired code - flag fix_outside - lets them take part;
+                          without it, and whenever no such document is open, it IS fresh_view (disk w) f)
    demanded w f           what the property demands for f in world w (lists are compared up to order)
    conformant / classes   the boolean predicates on histories used as hypotheses of the guarded theorem; each class
                           mirrors one confirmed finding (known_findings/C08.json) *)
@@ -34,15 +37,25 @@ Section Spec.
 
   Definition fresh_view (dk : amap txt) (f : file) : list err := vget (all_errs A (init_proj A fx dk)) f.
 
+  (* the files the project consists of in world w: the workspace files and, with the repaired code, the open documents
+     outside the workspace; start_on mem dk = CreateAllProject + HandleCheck over the files of dk selected by mem
+     (init_proj is start_on (in_dir A)) *)
+  Definition member (w : world A) (f : file) : bool := in_dir A f || (fix_outside fx && ahas (ebuf w) f).
+  Definition start_on (mem : file -> bool) (dk : amap txt) : proj A :=
+    let fl := fset_of (filter mem (akeys dk)) in
+    let p0 := {| p_files := fl; p_index := fl; p_fsm := []; p_lru := []; p_tincl := []; p_terrs := [] |} in
+    recompute_third A (fst (first_many A fx false dk p0 fl)).
+  Definition fresh_view_open (w : world A) (f : file) : list err := vget (all_errs A (start_on (member w) (disk w))) f.
+
   (* the demanded list for every file (stronger than the property where some OTHER buffer is unsaved: the property
      then leaves files without unsaved edits unconstrained; the guarded theorem proves this stronger form) *)
   Definition demanded (w : world A) (f : file) : list err :=
     if fmem f (dirty w) then
       match aget (ebuf w) f with
-      | Some b => if is_nil (syn A b) then nonsyn (fresh_view (disk w) f) else syn A b
-      | None => fresh_view (disk w) f
+      | Some b => if is_nil (syn A b) then nonsyn (fresh_view_open w f) else syn A b
+      | None => fresh_view_open w f
       end
-    else fresh_view (disk w) f.
+    else fresh_view_open w f.
 
   (* what the property literally constrains in world w *)
   Definition constrained (w : world A) (f : file) : bool := fmem f (dirty w) || is_nil (dirty w).
@@ -56,9 +69,10 @@ Section Spec.
     (* saving a buffer whose file is gone re-creates the file: a client's watcher then also reports the creation,
        which this action does not send *)
     | ASave f => ahas (disk w) f || negb (ahas (ebuf w) f)
-    (* a watched-files notification names every file once; "changed" is only said of a file that exists *)
+    (* a watched-files notification names every file once, workspace files only (the client watches the workspace);
+       "changed" is only said of a file that exists *)
     | AWatched l =>
-      fnodup (map (witem_file A) l) &&
+      fnodup (map (witem_file A) l) && forallb (fun i => in_dir A (witem_file A i)) l &&
       forallb (fun i => match i with WM f _ => ahas (disk w) f | _ => true end) l
     | _ => true
     end.
@@ -75,10 +89,11 @@ Section Spec.
   Definition live_has (w : world A) (f : file) : bool := ahas (live (ds (sv w))) f.
 
   (* K_outside: the action names a file outside the workspace directories *)
-  Definition k_outside (a : action A) : bool := existsb (fun f => negb (in_dir A f)) (action_files a).
+  Definition names_outside (a : action A) : bool := existsb (fun f => negb (in_dir A f)) (action_files a).
+  Definition k_outside (a : action A) : bool := negb (fix_outside fx) && names_outside a.
 
   (* no action of the history names a file outside the workspace directories *)
-  Definition inside_only (h : list (action A)) : bool := forallb (fun a => negb (k_outside a)) h.
+  Definition inside_only (h : list (action A)) : bool := forallb (fun a => negb (names_outside a)) h.
 
   (* K_live_cleared (12a): a file keeps its live (unsaved-buffer) entry across the action while its saved list changes and
      the new saved map is not empty: pushAllDiagnosticsAgain overwrites the live syntax errors on the client *)
